@@ -105,7 +105,8 @@ Fixpoint lit_zip (expected buf : list N) (idx : nat) : nat * list N * bool :=
   | e :: es, b :: r => if b =? e then lit_zip es r (S idx) else (idx, r, false)
   end.
 
-(* the inner `loop` of the Unicode state; fuel 12 covers idx 0..10 *)
+(* the inner `loop` of the Unicode state; it runs at most 11 - idx + 1 times (idx 0..10), which is
+   the fuel the decoder passes *)
 Fixpoint unicode_loop (fuel : nat) (t : tape) (rest_stack : list jst) (high low : N) (idx : nat) (buf : list N) : jres :=
   match fuel with
   | O => (with_stack t (JUnicode high low idx :: rest_stack), buf, JOof)
@@ -242,7 +243,7 @@ Definition jarm {A : Type} (ret : jres -> A) (rec : tape -> list N -> A) (t : ta
                end
       end
   | JUnicode high low idx :: st =>
-      match unicode_loop 12 t st high low idx buf with
+      match unicode_loop (S (11 - idx)) t st high low idx buf with
       | (t', buf', JOk) => rec t' buf'
       | r => ret r
       end
